@@ -584,13 +584,15 @@ def lme_designed(run: Run, n_param_sets: int, cases_p, meta_p, cases_t, meta_t):
             lme_cases(run, p, slope, hist, "designed", cases_p, meta_p, cases_t, meta_t, g)
 
 
-def gen_cohort(rng, n_ind):
-    """a small univariate cohort following a random-intercept/slope line; ages on a 1/4 lattice, values on 1/64"""
+def gen_cohort(rng, n_ind, homogeneous=False):
+    """a small univariate cohort following a random-intercept/slope line; ages on a 1/4 lattice, values on 1/64.
+    homogeneous: every individual follows the SAME line (only the visit noise differs) — the fitted covariance of the random
+    effects then sits on (or next to) the boundary: zero variance, conditional means exactly 0, a fit the library may refuse"""
     rows = {}
     for i in range(n_ind):
-        n = rng.choice([1, 2, 3, 3, 4, 5, 6])
+        n = rng.choice([1, 2, 3, 3, 4, 5, 6]) if not homogeneous else rng.choice([3, 4, 5, 6])
         ts = sorted(rng.sample(range(200, 360), n))
-        b0, b1 = rng.gauss(0, 1.0), rng.gauss(0, 0.05)
+        b0, b1 = (rng.gauss(0, 1.0), rng.gauss(0, 0.05)) if not homogeneous else (0.0, 0.0)
         obs = []
         for t in ts:
             y = 2 + b0 + (0.1 + b1) * (t / 4 - 70) + rng.gauss(0, 0.25)
@@ -631,7 +633,9 @@ def lme_fitted(run: Run, n_cohorts: int, cases_p, meta_p, cases_t, meta_t, cases
     LMEPersonalizeAlgorithm._generic_get_random_effects = staticmethod(gen)
     try:
         for c in range(n_cohorts):
-            cohort = gen_cohort(g, g.randint(8, 16))
+            homogeneous = c >= n_cohorts - max(3, n_cohorts // 2)       # the last half (at least 3) of the cohorts
+            cohort = gen_cohort(g, g.randint(8, 16) if not homogeneous else g.randint(20, 30), homogeneous=homogeneous)
+            run.count("lme.fit.cohort", "homogeneous (variance components on the boundary)" if homogeneous else "heterogeneous")
             flat = [(i, t, v) for i, obs in cohort.items() for t, v in obs]
             g.shuffle(flat)
             df = pd.DataFrame(flat, columns=["ID", "TIME", "Y"])
@@ -653,6 +657,36 @@ def lme_fitted(run: Run, n_cohorts: int, cases_p, meta_p, cases_t, meta_t, cases
                 fitted = captured.get("fitted")
                 P = model.parameters
                 cov_inv = np.array(P["cov_re_unscaled_inv"], dtype=float)
+                # (0) the conditional means GIVEN THE FITTED VARIANCE COMPONENTS, in covariance form (valid for a singular covariance too):
+                #     b_i = D Z_i' (Z_i D Z_i' + I)^-1 r_i  with  D = cov_re / noise variance  — equal to (Z'Z + D^-1)^-1 Z' r when D is invertible
+                try:
+                    D = np.atleast_2d(np.array(P["cov_re"], dtype=float)) / float(P["noise_std"]) ** 2
+                    fe = np.array(P["fe_params"], dtype=float).reshape(-1)
+                    for i, obs in cohort.items():
+                        tt = np.array([t for t, v in obs if not isnan(v)], dtype=float)
+                        yy = np.array([v for t, v in obs if not isnan(v)], dtype=float)
+                        tn = (tt - float(P["ages_mean"])) / float(P["ages_std"])
+                        X = np.stack([np.ones_like(tn), tn], axis=1)
+                        Z = X if slope else X[:, :1]
+                        r = yy - X @ fe
+                        S = Z @ D @ Z.T + np.eye(len(r))
+                        if float(np.linalg.cond(S)) > 1e8:
+                            run.count("lme.fit.conditional_mean_oracle", "ill-conditioned(skipped)")
+                            continue
+                        ref = (D @ Z.T @ np.linalg.solve(S, r)).reshape(-1)
+                        mine = [float(ip._individual_parameters[i]["random_intercept"])] + ([float(ip._individual_parameters[i]["random_slope_age"])] if slope else [])
+                        dev = max(abs(a - b) / (1 + abs(b)) for a, b in zip(mine, ref.tolist()))
+                        run.count("lme.fit.conditional_mean_oracle", "compared")
+                        if dev > 1e-5:
+                            run.fail("lme:personalize:not-the-conditional-mean-given-the-fitted-components",
+                                     "personalised random effects of a training individual are not the conditional means D Z'(Z D Z' + I)^-1 r given the "
+                                     "fitted variance components (D = cov_re / noise variance)" + (" - D is singular: the conditional mean of an effect "
+                                     "of zero variance is 0" if float(np.linalg.cond(D)) > 1e12 or not np.all(np.isfinite(np.linalg.cond(D))) else ""),
+                                     dict(m0, id=i, cov_re=np.array(P["cov_re"]).tolist(), noise_std=float(P["noise_std"]),
+                                          cov_re_unscaled_inv=cov_inv.tolist()), expected=ref.tolist(), observed=mine)
+                            break
+                except Exception as e:  # noqa
+                    run.count("lme.fit.conditional_mean_oracle", f"oracle-raises:{type(e).__name__}")
                 if not np.all(np.isfinite(cov_inv)) or float(np.abs(cov_inv).max()) > 1e8:
                     run.count("lme.fit.outcome", "degenerate-variance-components(skipped)")
                     continue
@@ -672,8 +706,13 @@ def lme_fitted(run: Run, n_cohorts: int, cases_p, meta_p, cases_t, meta_t, cases
                     run.fail("lme:fit:cov-re-unscaled-inv", "cov_re_unscaled_inv is not the inverse of cov_re / noise_std^2", m0,
                              observed=dict(cov_re=np.array(P["cov_re"]).tolist(), noise_std=float(P["noise_std"]), cov_re_unscaled_inv=cov_inv.tolist()))
                 # (2) runtime oracle: statsmodels' own conditional means on the training individuals
+                sm_re = None
                 if fitted is not None:
-                    sm_re = fitted.random_effects
+                    try:
+                        sm_re = fitted.random_effects
+                    except Exception as e:  # noqa: statsmodels itself cannot predict (singular covariance)
+                        run.count("lme.fit.statsmodels_oracle", f"random_effects-raises:{type(e).__name__}")
+                if sm_re is not None:
                     worst = 0.0
                     for i in cohort:
                         mine = [float(ip._individual_parameters[i]["random_intercept"])]
@@ -842,7 +881,7 @@ def constant_model_reuse(run: Run, thorough: bool):
 def lme_all(run: Run, thorough: bool):
     cases_p, meta_p, cases_t, meta_t, cases_b, meta_b = [], [], [], [], [], []
     lme_designed(run, 60 if thorough else 18, cases_p, meta_p, cases_t, meta_t)
-    lme_fitted(run, 30 if thorough else 5, cases_p, meta_p, cases_t, meta_t, cases_b, meta_b)
+    lme_fitted(run, 40 if thorough else 10, cases_p, meta_p, cases_t, meta_t, cases_b, meta_b)
     if meta_p:
         run.sample(dict(meta_p[1][0], observed=meta_p[1][1]))
     bad = run.vm_bad_indices("lme_pers", HDR, "bool * lme_params * hist * res (Q * Q) * Q", cases_p, "check_personalize", shard=150)
